@@ -99,6 +99,10 @@ class Deduping(DNAGenerator):
   def needs_feedback(self) -> bool:
     return self.generator.needs_feedback
 
+  @property
+  def multi_objective(self) -> bool:
+    return self.generator.multi_objective
+
   def _setup(self):
     self.generator.setup(self.dna_spec)
     self._hash_fn = self.hash_fn or symbolic.hash
